@@ -5,7 +5,7 @@ from sa import ccp, guards, local
 from sa.facts import callee_name, norm
 from . import common
 
-HASHSET_INSERT = re.compile(r"^std::collections::HashSet::<T, S(?:, A)?>::insert$")
+HASHSET_INSERT = re.compile(r"^std::collections::(?:HashSet::<T, S(?:, A)?>|BTreeSet::<T(?:, A)?>)::insert$")
 EDGE_ITER = re.compile(r"petgraph::.*(?:Neighbors|Edges|EdgeReferences|EdgeIndices|Externals)\b")
 
 
@@ -17,7 +17,7 @@ def dfa_final_field(lib):
         fs = a["variants"][0]["fields"]
         if any("petgraph" in norm(f["ty"]) for f in fs):
             for f in fs:
-                if norm(f["ty"]).startswith("std::collections::HashSet<usize"):
+                if re.match(r"^std::collections::(?:HashSet|BTreeSet)<usize", norm(f["ty"])):
                     return path, f["name"]
     return None, None
 
@@ -193,6 +193,28 @@ def find_escaper(lib):
     return hits
 
 
+def find_escape_entry(lib):
+    """The function through which literals get escaped: the table escaper itself, or - if that is a helper without the two
+    bool flags - its (transitive) unique caller that has them."""
+    from sa import guards as G
+    out = []
+    for E in find_escaper(lib):
+        cur = E
+        for _ in range(4):
+            if len([t for t in cur.sig_inputs if t == "bool"]) >= 2:
+                break
+            callers = {b.path for b, _, _ in G.call_sites(lib, cur.path)}
+            callers = {c for c in callers if lib.body(c) is not None}
+            if len(callers) != 1:
+                break
+            nxt = lib.body(list(callers)[0])
+            if nxt.kind == "closure":
+                nxt = lib.body(nxt.parent) or nxt
+            cur = nxt
+        out.append(cur)
+    return out
+
+
 def array_iter_source(o):
     """If origin `o` is the element yielded by iterating a constant array/slice, return the list of elements."""
     for x in local.walk(o):
@@ -269,6 +291,13 @@ def esc(ctx, prog, lib):
         ctx.ok("ESC-1", "%s:%r" % (E.path, c), {"by": covered[c][0]}, E.loc(covered[c][2]))
     # the escaped string is stored back for every element
     stores = [t for _, t in E.calls() if (callee_name(t) or "").endswith("IndexMut<I>>::index_mut")]
+    if not stores and E.sig_output == "std::string::String":
+        # the table escaper is a pure helper &str -> String: its callers store the result
+        for cb, _, _ in guards.call_sites(lib, E.path):
+            root = lib.body(cb.parent) if cb.kind == "closure" and cb.parent else cb
+            for bb in (cb, root):
+                stores += [t for _, t in bb.calls() if (callee_name(t) or "").endswith("IndexMut<I>>::index_mut")
+                           or (callee_name(t) or "").endswith("collect_vec") or (callee_name(t) or "").endswith("Iterator::collect")]
     if stores:
         ctx.ok("ESC-2", E.path + ":result stored per element", None, E.loc(stores[0].get("line")))
     else:
